@@ -140,6 +140,29 @@ pub fn substitute(len: usize, sub: &str, r: u64, orig: &[u8]) -> Vec<u8> {
         (96, "other") => crate::refc::g2b(&crate::refc::rand_g2(&mut s)).to_vec(),
         (32, "q") => bad::scalar_q().to_vec(),
         (32, "q+1") => bad::scalar_q_plus_1().to_vec(),
+        (32, "hibit") => {
+            // the same value with bit 255 set (q has 255 bits: a decoder that masks the top bit
+            // would accept it)
+            let mut b = orig.to_vec();
+            b[31] |= 0x80;
+            b
+        }
+        (32, "orig+q") => {
+            // another encoding congruent to the original mod q (if it fits in 256 bits)
+            let q = bad::scalar_q();
+            let mut b = orig.to_vec();
+            let mut carry = 0u16;
+            for i in 0..32 {
+                let v = b[i] as u16 + q[i] as u16 + carry;
+                b[i] = v as u8;
+                carry = v >> 8;
+            }
+            if carry != 0 {
+                bad::scalar_q_plus_1().to_vec()
+            } else {
+                b
+            }
+        }
         (32, "closetag") => crate::refc::scb(&crate::refc::close_tag()).to_vec(),
         (32, "closetag+q") => {
             let tag = crate::refc::scb(&crate::refc::close_tag());
@@ -159,6 +182,8 @@ pub fn substitute(len: usize, sub: &str, r: u64, orig: &[u8]) -> Vec<u8> {
         (8, "imin") => i64::MIN.to_le_bytes().to_vec(),
         (8, "imin+1") => (i64::MIN + 1).to_le_bytes().to_vec(),
         (1, "inc") => vec![orig[0].wrapping_add(1)],
+        (1, "dec") => vec![orig[0].wrapping_sub(1)],
+        (1, x) if x.starts_with("u8:") => vec![x[3..].parse::<u8>().unwrap_or(0)],
         _ => crate::harness_error(&format!("no substitute `{}` for an atom of length {}", sub, len)),
     }
 }
@@ -168,10 +193,10 @@ pub fn substitutes_for(kind: AtomKind, len: usize) -> Vec<&'static str> {
     match (kind, len) {
         (AtomKind::Bytes, 48) => vec!["identity", "offcurve", "nonsub", "other", "random"],
         (AtomKind::Bytes, 96) => vec!["identity", "offcurve", "nonsub", "other", "random"],
-        (AtomKind::Bytes, 32) => vec!["q", "q+1", "ones", "closetag", "closetag+q", "zero", "other"],
+        (AtomKind::Bytes, 32) => vec!["q", "q+1", "ones", "hibit", "orig+q", "closetag", "closetag+q", "zero", "other"],
         (AtomKind::U64, 8) => vec!["2^63", "2^64-1", "2^63-1", "zero"],
         (AtomKind::I64, 8) => vec!["imin", "imin+1", "2^63-1", "zero"],
-        (AtomKind::U8, 1) => vec!["inc", "ones"],
+        (AtomKind::U8, 1) => vec!["inc", "dec", "ones", "u8:0", "u8:1", "u8:2", "u8:127", "u8:128", "u8:253", "u8:254"],
         (AtomKind::SeqLen, 8) => vec![],
         (AtomKind::EnumTag, _) => vec![],
         (AtomKind::OptionTag, _) => vec![],
